@@ -24,8 +24,12 @@ import (
 )
 
 func c07Harness(nPairs int, extras, conflicts bool) Harness {
+	return c07HarnessV(nPairs, extras, conflicts, 0)
+}
+
+func c07HarnessV(nPairs int, extras, conflicts bool, variant int) Harness {
 	return func(c *Ctx) {
-		am := genAssoc(c, nPairs, extras, conflicts)
+		am := genAssocV(c, nPairs, extras, conflicts, variant)
 		b := marshalFeed(am.msg)
 		c.Input(hash64(string(b)), len(am.msg.Entity) >= 2, func() string { return am.key + "order=" + entityOrder(am.msg) + "\n" + feedText(am.msg) })
 		if c.Free("preceded_by_conflicting_parse", 2) == 1 {
@@ -163,6 +167,8 @@ func c07IdentifierOrder(c *Ctx) {
 		{TripId: sp("T"), RouteId: sp("R"), StartTime: sp("10:00:00")},
 		{TripId: sp("T"), RouteId: sp("R"), StartTime: sp("09:00:00")},
 		{TripId: sp("T"), RouteId: sp("R"), StartTime: sp("00:00:00")},
+		{TripId: sp("T"), RouteId: sp("R"), StartTime: sp("24:00:00")}, // a start time past midnight is another trip than 00:00:00
+		{TripId: sp("T"), RouteId: sp("R"), StartTime: sp("33:00:00")}, // ... and than 09:00:00
 		{TripId: sp("T"), RouteId: sp("R"), StartDate: sp("20240102")},
 		{TripId: sp("T"), RouteId: sp("R"), StartDate: sp("20240101")},
 		{TripId: sp("T"), RouteId: sp("R"), StartTime: sp("10:00:00"), StartDate: sp("20240101")},
@@ -223,7 +229,7 @@ func init() {
 	register(&Check{
 		ID:    "C07",
 		Level: "model_checking",
-		Rule: "an NYCT message (stale unassigned trip as trip update + vehicle position, assigned trip as trip update + vehicle position, elevator alert) in all 120 entity orders under 8 configurations (nil, 4 nycttrips, 3 nyctalerts): one dump per configuration; association messages (1 pair + extras, 2 pairs; thorough: 2 pairs + extras) in ALL n! entity orders (n<=5; 4 orders beyond) x all map rotations, plus the same with conflicting duplicates (invariants only); plus every 4-subset of 13 trip descriptors that differ in one identifier component each (direction, start time, start date, schedule relationship, route, id) in all 24 orders; " +
+		Rule: "1 pair whose vehicle position carries 4 sets of optional fields and whose entities may be flagged is_deleted; an NYCT message (stale unassigned trip as trip update + vehicle position, assigned trip as trip update + vehicle position, elevator alert) in all 120 entity orders under 8 configurations (nil, 4 nycttrips, 3 nyctalerts): one dump per configuration; association messages (1 pair + extras, 2 pairs; thorough: 2 pairs + extras) in ALL n! entity orders (n<=5; 4 orders beyond) x all map rotations, plus the same with conflicting duplicates (invariants only); plus every 4-subset of 13 trip descriptors that differ in one identifier component each (direction, start time, start date, schedule relationship, route, id) in all 24 orders; " +
 			"non-trivial = distinct messages with >= 2 entities; oracles = cross-execution relation (message up to order -> dump), order-independent reference, sortedness/uniqueness invariants",
 		Assumptions: []string{"the identifier order is the documented field order (id, route, direction, start time, start date, schedule relationship)"},
 		Scenarios: func(tier string) []*Scenario {
@@ -231,6 +237,7 @@ func init() {
 				{Name: "one-pair+extras", Bound: -1, Run: c07Harness(1, true, false)},
 				{Name: "two-pairs", Bound: -1, Run: c07Harness(2, false, false)},
 				{Name: "one-pair+conflicts", Bound: -1, Run: c07Harness(1, false, true)},
+				{Name: "one-pair-with-optional-fields-and-deleted-entities", Bound: -1, Run: c07HarnessV(1, false, false, 3)},
 				{Name: "identifier-order", Bound: -1, Run: c07IdentifierOrder},
 				{Name: "orders-under-extensions", Bound: -1, Run: c07UnderExtensions()},
 			}
